@@ -26,7 +26,9 @@ def run(chk):
     cases = S.generate(rng, N[chk.tier] * (5 if core.hand_models_changed(chk) else 1))
 
     def oracle(c, r):
-        steps, answers = r
+        steps, answers = r[0], r[1]
+        if len(r) > 2 and r[2]:
+            return "after a write/read cycle of the forest: %s" % (r[2],)
         pool = [None] + c["pool"]
         prev = [[None, {}] for _ in range(len(pool))]
         for (cont, v, vid), st in zip(c["ops"], steps):
@@ -99,7 +101,7 @@ def run(chk):
 
     core.differential(chk, "ops_variants", cases, "ops_variants", model_cases=[S.to_model(c) for c in cases],
                       nontrivial=lambda c, r: sum(1 for s in r[0] if s[0] == "ok") >= 2 and any(s[0] == "err" for s in r[0]),
-                      oracle=oracle, classify=classify)
+                      oracle=oracle, classify=classify, normalise=lambda r: r[:2] if isinstance(r, list) else r)
     return chk.finish(
         rule="pools of 1-7 variants (families with aligned and misaligned UIDs, child arch subsets and foreign arches, dashed "
              "top-level UIDs, invalid fields, value-duplicates) and histories of up to 12 add calls (parents first, plus re-adds, "
